@@ -18,6 +18,7 @@ package oracle
 //@ requires [rotation_counter_within_the_list] oracle.CyclelistSequencer < count(oracle.Cyclelist)
 //@ requires [round_counter_below_2_64] oracle.QuerySequencer < 18446744073709551615
 //@ requires [windows_fit] forall q bytes :: forall i int :: has(oracle.Query, pair(q, i)) ==> blockheight(ctx) + eround(q, i).RegistrySpecBlockWindow < 18446744073709551616
+//@ requires [rounds_are_stored_under_their_id] forall q bytes :: forall i int :: has(oracle.Query, pair(q, i)) ==> eround(q, i).Id == i
 //@ modifies oracle.Query, oracle.Aggregates, oracle.Nonces, oracle.CyclelistSequencer, oracle.QuerySequencer, bank.bal, reporter.SelectorTips, H_*, A_*
 //@ ensures [rotation_counter_stays_within_the_list] oracle.CyclelistSequencer < count(oracle.Cyclelist)
 //@ ensures [aggregation_runs_before_rotation] called(SetAggregatedReport) && (err == nil ==> called(RotateQueries))
